@@ -6,7 +6,7 @@ PROP = {
     "n": {"quick": 3000, "thorough": 50000},
     "shards": {"quick": 16, "thorough": 64},
     "level": "proof",
-    "technique": "Coq theorems over the executable model (escapeChars at character level for all strings: one pass, inverse, safety; the Map encoder escapes each leaf exactly once; decoder-side escaping as a leaf map of the decoded Map; the two setters never both on; soundness of the post-encode check parametric in the tokenizer) + model/implementation correspondence by vm_compute (escapeChars on all bytes and random strings, setter histories, Map.Xml bytes, NewMapXml under decoder escaping) + Go-side oracle on the four encoders x three escaping modes x check on/off",
+    "technique": "go2v translation of func escapeChars and its table from the current escapechars.go (Gen/Pure_gen.v) proved equal to the model for every string (GenProofs/PureG.v) + Coq theorems over the executable model (escapeChars at character level for all strings: one pass, inverse, safety; the Map encoder escapes each leaf exactly once; decoder-side escaping as a leaf map of the decoded Map; the two setters never both on; soundness of the post-encode check parametric in the tokenizer) + model/implementation correspondence by vm_compute (escapeChars on all bytes and random strings, setter histories, Map.Xml bytes, NewMapXml under decoder escaping) + Go-side oracle on the four encoders x three escaping modes x check on/off",
     "design_ref": "DESIGN.md section 6, C05",
     "assumptions": XML_ASSUME + [
         "unescape (Spec/EscSpec.v) states how encoding/xml's tokenizer reads the five predefined entities; validated on every run by running the real tokenizer over the escaped strings (character data and attribute value)",
